@@ -163,11 +163,11 @@ SenderLabel ==
          ELSE IF pc \in {"done", "exited"} \/ (pc = "failed" /\ out = None) THEN "C07:EmitAfterEnd"
          ELSE IF out = None
               THEN IF E.k # "data" THEN "C07:UnexpectedOutput"
-                   ELSE IF OutKey(E) = prev /\ why # "time" THEN "C16:ExtraCopy"
+                   ELSE IF OutKey(E) = prev /\ why # "time" THEN (IF p.R = 1 THEN "C08,C16:ExtraCopy" ELSE "C16:ExtraCopy")
                    ELSE IF E.n = Wire(base + len + 1)
                         THEN (IF base + len >= p.NB THEN "C07,C01:BeyondFinal" ELSE "C08:ExceedsWindow")
                         ELSE "C08:UncommittedTransmission"
-              ELSE IF OutKey(E) = prev /\ out.k # "err" /\ out.c = 0 THEN "C16:ExtraCopy"
+              ELSE IF OutKey(E) = prev /\ out.k # "err" /\ out.c = 0 THEN (IF p.R = 1 THEN "C08,C16:ExtraCopy" ELSE "C16:ExtraCopy")
                    ELSE IF out.k # "err" /\ out.c > 0 THEN "C16:MissingCopy"
                    ELSE IF out.k = "err" THEN "C07:MissingErrorReply"
                    ELSE IF E.k = "data" /\ E.n = Wire(out.next) THEN "C01:WrongContent"
@@ -198,8 +198,8 @@ ReceiverLabel ==
   CASE E.e = "out" ->
          IF pc \in {"exited"} \/ (pc \in {"done", "failed"} /\ out = None) THEN "C07:EmitAfterEnd"
          ELSE IF out = None
-              THEN IF E.k = "ack" /\ OutKey(E) = prev THEN "C16:ExtraCopy" ELSE "C02:UnexpectedAck"
-              ELSE IF E.k = "ack" /\ OutKey(E) = prev /\ out.c = 0 THEN "C16:ExtraCopy"
+              THEN IF E.k = "ack" /\ OutKey(E) = prev THEN (IF p.R = 1 THEN "C02,C16:ExtraCopy" ELSE "C16:ExtraCopy") ELSE "C02:UnexpectedAck"
+              ELSE IF E.k = "ack" /\ OutKey(E) = prev /\ out.c = 0 THEN (IF p.R = 1 THEN "C02,C16:ExtraCopy" ELSE "C16:ExtraCopy")
                    ELSE IF out.c > 0 THEN "C16:MissingCopy"
                    ELSE IF E.k # "ack" THEN "C02:WrongKind"
                    ELSE IF E.n # out.n THEN (IF why = "ooseq" THEN "C02,C04:ReAckNumber" ELSE "C02:AckNumber")
